@@ -73,12 +73,15 @@ def make_obj(objkind, span, n):
         c.add_variable('I32', [100 + i for i in range(n)], dtype=np.int32)
         c.add_variable('U8', [200 + i for i in range(n)], dtype=np.uint8)
         c.add_variable('F32', [0.5 + i for i in range(n)], dtype=np.float32)
+        c.add_attribute('weights', np.array([0.25, 0.75]))   # attributes of any type carry over: an array, a nested list
+        c.add_attribute('notes', [['a'], {'k': 1}])
         return c
     cls = PModel if objkind.startswith('pmodel') else _MODEL
     m = cls(span, X=[1.0 + i for i in range(n)], Y=[0.5 * i for i in range(n)])
     m.lags = 2
     m.leads = 1
     m.adhoc = ['note', 1]
+    m.weights = np.array([0.25, 0.75])
     if objkind.endswith('partly') and n >= 1:
         m.status[n - 1] = '.'
         m.iterations[n - 1] = 4
@@ -99,6 +102,7 @@ FILLS = [
     ('keyword', {'K': -1, 'F': 8.5, 'Y': -2.0, 'status': 'X'}),
     ('both', {'fill_value': 7, 'S': 'q', 'X': 0.25, 'iterations': 99}),
     ('fractional', {'fill_value': 0.5, 'Q': -0.25, 'I32': 0.75, 'Y': 0.5, 'iterations': 7.9}),   # |v| < 1: truthy for a bool variable, 0 for an integer one
+    ('none-keyword', {'fill_value': 1.0, 'X': None, 'F': None, 'K': None, 'Q': None, 'S': None, 'status': None}),   # a keyword given as None: the dtype default, not fill_value
     ('unknown', {'fill_value': 0, 'Nope': 1}),
     ('falsy-keywords', {'fill_value': 7, 'K': 0, 'F': 0.0, 'S': '', 'Q': False, 'I32': 0, 'X': 0.0, 'Y': 0, 'status': '', 'iterations': 0}),
 ]
@@ -200,7 +204,9 @@ def run_case(case):
         if a_new.shape != (len(new_labels),):
             out.append(('shape', (len(new_labels),), a_new.shape, 'series length differs from the new span'))
             return out
-        if name in kwargs:
+        if name in kwargs and kwargs[name] is None:
+            fill = default_fill(a_old.dtype, name, False)   # an explicit None for this variable: the dtype's own default (also for status: '')
+        elif name in kwargs:
             fill = cast_fill(kwargs[name], a_old.dtype)
         elif kwargs.get('fill_value') is not None and not (is_model and name in ('status', 'iterations')):
             fill = cast_fill(kwargs['fill_value'], a_old.dtype)
@@ -313,11 +319,11 @@ def run_block(block, tier, seed):
                         acc.violation(key + ':repeated-old-label', case, exp, obs, what)
         return acc
     types, objkind, fill_name = block['types'], block['obj'], block['fill']
-    stricts = [None] if fill_name != 'unknown' else [None, False, True]
+    stricts = [None] if fill_name not in ('unknown', 'none') else [None, False, True]   # an explicit strict= never changes the result's own strict flag
     for old in seqs_nodup(old_max):
         for new in seqs_rep(new_max):
-            for strict in stricts:
-                for obj_strict in ((False, True) if fill_name == 'unknown' and strict is None else (False,)):
+            for strict in (stricts if fill_name == 'unknown' or (len(old) == 2 and len(new) == 2) else [None]):
+                for obj_strict in ((False, True) if (fill_name == 'unknown' and strict is None) or (fill_name == 'none' and strict is not None) else (False,)):
                     case = dict(kind='reindex', obj=objkind, types=types, old=old, new=new, fill=fill_name, strict=strict, obj_strict=obj_strict)
                     acc.evaluations += 1
                     try:
